@@ -67,54 +67,72 @@ def check(ck):
         ("transfer-encoding is not protected", [], [{"Transfer-Encoding": "chunked"}]),
         ("same dict pushed twice around another", [], [{"X-M": "fast"}, {"X-M": "safe"}, {"X-M": "fast"}]),
     ]
+    if ck.tier == "thorough":
+        # exhaustive small universe: every stack of up to two dictionaries with at most one entry each, plus every
+        # three-level stack over one header name in three letter cases, with and without URL credentials
+        names = ["X-A", "x-a", "X-B", "Content-Type", "content-length", "User-Agent", "user-agent", "Authorization"]
+        values = ["1", 2, None]
+        singles = [{}] + [{n_: v_} for n_ in names for v_ in values]
+        gen = []
+        for d1 in singles:
+            gen.append(("gen %r" % (d1,), [], [d1]))
+            for d2 in singles:
+                gen.append(("gen %r %r" % (d1, d2), [], [d1, d2]))
+        for a_ in ("X-T", "x-t", "X-t"):
+            for b_ in ("X-T", "x-t", "X-t"):
+                for c_ in ("X-T", "x-t", "X-t"):
+                    gen.append(("gen3 %s/%s/%s" % (a_, b_, c_), [("Authorization", "Basic url")], [{a_: "1"}, {b_: "2"}, {c_: "3"}]))
+        stacks = stacks + gen
+        ck.stat("generated_header_stacks", len(gen))
     n2 = 0
-    for (label, extra, stack) in stacks:
-        want = {}
-        for (k, v) in extra:
-            want[str(k).lower()] = str(v)
-        for dct in stack:
-            for k, v in dct.items():
+    with ck.guard("C18.2 truth table of send_content"):
+        for (label, extra, stack) in stacks:
+            want = {}
+            for (k, v) in extra:
                 want[str(k).lower()] = str(v)
-        for p_ in spec.PROTECTED_HEADERS:
-            want.pop(p_, None)
-        conn = shape.Opaque("connection", {"putheader()": K(None), "endheaders()": K(None), "send()": K(None)})
+            for dct in stack:
+                for k, v in dct.items():
+                    want[str(k).lower()] = str(v)
+            for p_ in spec.PROTECTED_HEADERS:
+                want.pop(p_, None)
+            conn = shape.Opaque("connection", {"putheader()": K(None), "endheaders()": K(None), "send()": K(None)})
 
-        def mk():
-            return shape.Obj("TransportMixIn", {
-                "_extra_headers": L([L([K(k), K(v)]) for (k, v) in extra]) if extra else K(None),
-                "additional_headers": L([D(dict((k, K(v)) for k, v in dct.items())) for dct in stack]),
-                "readonly_headers": K(prog.const("jsonrpc", _class_attr(prog, "TransportMixIn", "readonly_headers"))),
-                "_config": shape.Opaque("Config", {"content_type": K("application/json-rpc")}),
-                "user_agent": K("configured-agent")})
-        ev = shape.Evaluator(prog, "jsonrpc", lenient=True, stubs={"utils.to_bytes": lambda *a, **k: a[0]})
-        res = ev.run(fsend, {"connection": conn, "request_body": K(b'{"a": 1}')}, mk)
-        calls = [c for c in getattr(ev, "opaque_calls", []) if c[0] == "connection" and c[1] == "putheader"]
-        emitted = []
-        for c in calls:
-            a = c[2]
-            emitted.append((a[0].v if isinstance(a[0], K) else repr(a[0]), a[1].v if isinstance(a[1], K) else repr(a[1])))
-        n2 += 1
-        problems = []
-        if len(res) != 1 or res[0][1][0] != "return":
-            problems.append("send_content does not complete (%r)" % ((res[0][1][:2] if res else None),))
-        fixed = emitted[:2]
-        if sorted((k.lower(), v) for (k, v) in fixed) != [("content-length", "8"), ("content-type", "application/json-rpc")]:
-            problems.append("the fixed headers are %r (required first: Content-Type from the configuration, Content-Length = byte length 8)" % (fixed,))
-        custom = emitted[2:]
-        ua = [(k, v) for (k, v) in custom if k.lower() == "user-agent"]
-        custom_wo_ua = dict((k, v) for (k, v) in custom if not (k == "User-Agent" and v == "configured-agent"))
-        if "user-agent" in want:
-            if ua != [("user-agent", want["user-agent"])]:
-                problems.append("User-Agent emitted as %r although the stack defines %r" % (ua, want["user-agent"]))
-        else:
-            if ua != [("User-Agent", "configured-agent")]:
-                problems.append("without a pushed User-Agent the configured one must be sent exactly once, got %r" % (ua,))
-        if len(custom) != len(set(k.lower() for (k, _v) in custom)):
-            problems.append("a header name is emitted twice: %r" % (custom,))
-        if custom_wo_ua != want:
-            problems.append("custom headers emitted %r, required %r" % (custom_wo_ua, want))
-        ck.require(not problems, "C18.2", "jsonrpc.TransportMixIn.send_content: stack %s" % label, "emits %r" % (sorted(want.items()),),
-                   "for the header stack '%s' (%r + %r): %s" % (label, extra, stack, "; ".join(problems)), q.loc(fe, fe.node))
+            def mk():
+                return shape.Obj("TransportMixIn", {
+                    "_extra_headers": L([L([K(k), K(v)]) for (k, v) in extra]) if extra else K(None),
+                    "additional_headers": L([D(dict((k, K(v)) for k, v in dct.items())) for dct in stack]),
+                    "readonly_headers": K(prog.const("jsonrpc", _class_attr(prog, "TransportMixIn", "readonly_headers"))),
+                    "_config": shape.Opaque("Config", {"content_type": K("application/json-rpc")}),
+                    "user_agent": K("configured-agent")})
+            ev = shape.Evaluator(prog, "jsonrpc", lenient=True, stubs={"utils.to_bytes": lambda *a, **k: a[0]})
+            res = ev.run(fsend, {"connection": conn, "request_body": K(b'{"a": 1}')}, mk)
+            calls = [c for c in getattr(ev, "opaque_calls", []) if c[0] == "connection" and c[1] == "putheader"]
+            emitted = []
+            for c in calls:
+                a = c[2]
+                emitted.append((a[0].v if isinstance(a[0], K) else repr(a[0]), a[1].v if isinstance(a[1], K) else repr(a[1])))
+            n2 += 1
+            problems = []
+            if len(res) != 1 or res[0][1][0] != "return":
+                problems.append("send_content does not complete (%r)" % ((res[0][1][:2] if res else None),))
+            fixed = emitted[:2]
+            if sorted((k.lower(), v) for (k, v) in fixed) != [("content-length", "8"), ("content-type", "application/json-rpc")]:
+                problems.append("the fixed headers are %r (required first: Content-Type from the configuration, Content-Length = byte length 8)" % (fixed,))
+            custom = emitted[2:]
+            ua = [(k, v) for (k, v) in custom if k.lower() == "user-agent"]
+            custom_wo_ua = dict((k, v) for (k, v) in custom if not (k == "User-Agent" and v == "configured-agent"))
+            if "user-agent" in want:
+                if ua != [("user-agent", want["user-agent"])]:
+                    problems.append("User-Agent emitted as %r although the stack defines %r" % (ua, want["user-agent"]))
+            else:
+                if ua != [("User-Agent", "configured-agent")]:
+                    problems.append("without a pushed User-Agent the configured one must be sent exactly once, got %r" % (ua,))
+            if len(custom) != len(set(k.lower() for (k, _v) in custom)):
+                problems.append("a header name is emitted twice: %r" % (custom,))
+            if custom_wo_ua != want:
+                problems.append("custom headers emitted %r, required %r" % (custom_wo_ua, want))
+            ck.require(not problems, "C18.2", "jsonrpc.TransportMixIn.send_content: stack %s" % label, "emits %r" % (sorted(want.items()),),
+                       "for the header stack '%s' (%r + %r): %s" % (label, extra, stack, "; ".join(problems)), q.loc(fe, fe.node))
     ck.floor("C18.2", 10)
     # structural form of the same clause (normalise before merging; recency = stack order; unconditional overwrite)
     ge = cfg_of(fe)
@@ -128,9 +146,28 @@ def check(ck):
     for (n, c) in upd:
         ck.bad("C18.2s", "%s: `%s`" % (q.fn(fe), dump(c)[:50]), "a header dictionary is merged with its raw (not lower-cased) keys or without "
                "overwriting: a superseded value can win", q.loc(fe, n))
-    stack_loops = [n for n in ge.live_nodes() if n.kind == "for_body" and "additional_headers" in dump(n.ast.iter) and "self" in dump(n.ast.iter)]
-    ck.require(len(stack_loops) == 1 and dump(stack_loops[0].ast.iter) == "self.additional_headers", "C18.2s", "%s: merge walks the stack oldest to newest" % q.fn(fe),
-               "for headers in self.additional_headers", "the header stack is merged in the order `%s`" % ([dump(n.ast.iter) for n in stack_loops]), q.loc(fe, fe.node))
+    STACK = ("attr", ("param", "self"), "additional_headers")
+    stack_loops = []
+    for n in ge.live_nodes():
+        if n.kind == "for_body":
+            to = prov.origin(ge, n, n.ast.iter)
+            if prov.contains(to, lambda x: x == STACK) and not prov.contains(to, lambda x: x[0] == "elem"):
+                stack_loops.append((n, to))      # (loops over one element of the stack are the inner merge loops)
+    if not stack_loops:
+        raise AnalysisError("anchor vanished: no loop of emit_additional_headers iterates the header stack")
+    for (n, to) in stack_loops:
+        alts_ = prov.value_alts(to)
+        if alts_ == set([STACK]):
+            ck.ok("C18.2s", "%s: merge walks the stack oldest to newest" % q.fn(fe), "for headers in self.additional_headers", q.loc(fe, n))
+        elif any(a[0] == "item" or (a[0] == "call" and prov.show(a[1]) in ("reversed", "sorted")) for a in alts_):
+            ck.bad("C18.2s", "%s: merge walks the stack oldest to newest" % q.fn(fe),
+                   "the header stack is merged in the order `%s` (%s): a part of the stack, or the stack in another order than oldest to newest"
+                   % (dump(n.ast.iter), prov.show(to)[:80]), q.loc(fe, n))
+        else:
+            raise AnalysisError("the loop over `%s` in emit_additional_headers walks the header stack through a construct that is not modelled (%s)"
+                                % (dump(n.ast.iter), prov.show(to)[:60]))
+    if len(stack_loops) != 1:
+        ck.bad("C18.2s", "%s: one merge loop over the stack" % q.fn(fe), "the header stack is walked %d times" % len(stack_loops), q.loc(fe, fe.node))
     n_st = 0
     for n in stores:
         tk = prov.origin(ge, n, n.ast.targets[0].slice)
@@ -150,15 +187,20 @@ def check(ck):
                    "header values are not converted to str", q.loc(fe, n))
     if n_st < 2:
         raise AnalysisError("anchor vanished: merge stores in emit_additional_headers (found %d)" % n_st)
+    def before(a, b):
+        """a is executed before b and never after it (normal control flow)"""
+        fa = reachable_avoiding(ge, a.id, set(), lambda l: l != "exc")
+        fb = reachable_avoiding(ge, b.id, set(), lambda l: l != "exc")
+        return b.id in fa and a.id not in fb
     if stack_loops:
         extra_stores = [n for n in stores if prov.contains(prov.origin(ge, n, n.ast.targets[0].slice), lambda x: x[0] == "attr" and x[2] == "_extra_headers")]
-        ck.require(all(n.lineno < stack_loops[0].lineno for n in extra_stores) and bool(extra_stores), "C18.2s",
+        ck.require(all(before(n, stack_loops[0][0]) for n in extra_stores) and bool(extra_stores), "C18.2s",
                    "%s: URL-credential headers merged before the stack" % q.fn(fe), "so that pushed headers supersede them",
                    "headers derived from the URL are merged after the pushed ones", q.loc(fe, fe.node))
     pops_ro = [(n, c) for n in ge.live_nodes() for c in node_calls(n) if call_name(c) == "pop" and len(c.args) == 2]
     puts = [n for n in ge.live_nodes() for c in node_calls(n) if call_name(c) == "putheader"]
-    ck.require(len(pops_ro) == 1 and all(pops_ro[0][0].lineno < p_.lineno for p_ in puts) and bool(puts) and
-               all(pops_ro[0][0].lineno > n.lineno for n in stores), "C18.3", "%s: merge -> protected-name filter -> emission" % q.fn(fe), "ordered",
+    ck.require(len(pops_ro) == 1 and all(before(pops_ro[0][0], p_) for p_ in puts) and bool(puts) and
+               all(before(n, pops_ro[0][0]) for n in stores), "C18.3", "%s: merge -> protected-name filter -> emission" % q.fn(fe), "ordered",
                "the protected names are not removed after the merge and before the emission", q.loc(fe, fe.node))
     ro = prog.const("jsonrpc", _class_attr(prog, "TransportMixIn", "readonly_headers"))
     ck.require(set(ro) == spec.PROTECTED_HEADERS, "C18.3", "jsonrpc.TransportMixIn.readonly_headers", "= %s" % sorted(spec.PROTECTED_HEADERS),
